@@ -5,14 +5,21 @@
 EXTENDS TargetLex, Json, IOUtils
 Rec == ndJsonDeserialize(IOEnv.TRACE)
 Targets == {"js", "ts", "mo", "rs"}
+KwType == <<116, 121, 112, 101>>                              \* "type"
+KwInterface == <<105, 110, 116, 101, 114, 102, 97, 99, 101>>   \* "interface"
 One(r, t) ==
   LET g == r.gens[t] IN
   IF "skip" \in DOMAIN g THEN {}
   ELSE IF "panic" \in DOMAIN g THEN {t \o ":panic@" \o g.panic}
   ELSE (IF g.same = 1 THEN {} ELSE {t \o ":nondeterministic"})
-       \cup LET watch == IF t = "mo" THEN {r.methods[i] : i \in DOMAIN r.methods} ELSE {}
+       \cup LET defs == IF t \in {"ts", "mo"} /\ "defs" \in DOMAIN r THEN {r.defs[i] : i \in DOMAIN r.defs} ELSE {}
+                watch == (IF t = "mo" THEN {r.methods[i] : i \in DOMAIN r.methods} ELSE {}) \cup defs \cup (IF defs # {} THEN {KwType, KwInterface} ELSE {})
                 lx == Lex(g.text, t, watch)
-            IN (IF lx.ok THEN {} ELSE {t \o ":unterminated:" \o lx.mode})
+                \* closure: a definition name of the source that occurs as an identifier token outside a declaration
+                \* (`type D`, `interface D`) must be declared somewhere in the output
+                declared == {lx.ids[i + 1] : i \in {i \in 1..(Len(lx.ids) - 1) : lx.ids[i] \in {KwType, KwInterface}}}
+                used == {lx.ids[i] : i \in {i \in DOMAIN lx.ids : lx.ids[i] \in defs /\ (i = 1 \/ lx.ids[i - 1] \notin {KwType, KwInterface})}}
+            IN (IF used \subseteq declared THEN {} ELSE {t \o ":references_undeclared_type"}) \cup (IF lx.ok THEN {} ELSE {t \o ":unterminated:" \o lx.mode})
                \cup (IF \E i \in DOMAIN lx.ids : IsMarker(lx.ids[i]) THEN {t \o ":injected_token"} ELSE {})
                \cup (IF r.count_methods = 1
                      THEN UNION {LET m == r.methods[i]
